@@ -6,8 +6,8 @@ ROOT = os.path.dirname(os.path.dirname(os.path.abspath(__file__)))
 # id -> (technique, level text, level note, design ref)
 CLAIMED = {
  "C17": ("Coq proof over a transcription of types/{equals,unify}.go + differential correspondence (extracted model vs implementation)",
-         "Theorems in coq/Props/C17.v: type equality is an equivalence on well-formed types and coincides with equality of normal forms; matching a pattern against a variable-free type is sound and complete for the structural instantiation relation (with the empty-container rule). The model is tied to the code by running both on ~10^5 generated type pairs per run (all results and substitutions equal) and the property's own predicates are evaluated on the implementation.",
-         "Trusted: Coq kernel, extraction (ExtrOcamlBasic), OCaml driver, Go harness; types are modelled as trees (pointer-keyed inProcess sets and aliasing not modelled); general two-sided unification soundness is checked on the implementation by the direct predicate, proved for the matching use the checker makes of it.",
+         "Theorems in coq/Props/C17.v: type equality is an equivalence on well-formed types and coincides with equality of normal forms; matching a pattern against a variable-free type is sound and complete for the structural instantiation relation (with the empty-container rule); for variables on BOTH sides (C17_unify_sound) a successful unification keeps the substitution acyclic, keeps every old binding and makes the two types equal wherever the substitution can be applied (C17_unappliable_witness: it cannot always be applied, a known finding). The model is tied to the code by running both on ~10^5 generated type pairs per run (all results and substitutions equal) and the property's own predicates are evaluated on the implementation.",
+         "Trusted: Coq kernel, extraction (ExtrOcamlBasic), OCaml driver, Go harness; types are modelled as trees: the harness also builds implementation types with shared nodes (graphs) for the same tree and compares. Two-sided pairs are screened in a child process first (a cyclic binding makes the implementation recurse for ever).",
          "DESIGN.md §5 C17"),
  "C09": ("Coq proof over a transcription of parser/lexer + exhaustive/random differential correspondence",
          "Theorems in coq/Props/C09.v: the token list partitions the input (source order, no overlap, gaps are white space, idx/end/line/col reproduce the lexeme), longest registered symbolic operator, whole-word keywords and true/false, '.'/'?' never split, literal forms are single tokens, failure only where no rule matches; rule order and pattern texts pinned to the source by a regenerated table lemma. Tied to the code by all strings up to length 4 (quick) / 5 (thorough) over four mixed alphabets and operator sets plus random fragment strings, every token field compared.",
@@ -27,7 +27,7 @@ CLAIMED = {
          "DESIGN.md §5 C05"),
  "C18": ("Coq proof over a transcription of val/{equals,string,map}.go, fun/stringify.go and the parts of strconv/utf8/time they use; differential correspondence on generated value pairs",
          "Theorems in coq/Props/C18.v (generic in the float arithmetic, with the numeric facts they need stated as hypotheses): equality reflexive and symmetric, strconv.Quote injective, == <=> same map key for primitives, equal values render alike, rendering canonical under permutation of fields and entries, distinct numbers never collide. Tied to the code by comparing String(), Key(), Equals and the string() conversion on thousands of generated pairs (numbers across 2^53 and 2^63, every escape class, nested containers with permuted field and insertion order); the property's own predicate (== vs rendering vs key vs union/intersect/diff membership) is evaluated on the implementation.",
-         "Trusted: Coq kernel, extraction, driver (hardware doubles, shortest float printing by round-trip search), harness. Function values (compared and rendered by address) and times with a monotonic reading or a non-UTC location are outside the model; NaN is outside the property's premise (not self-equal by IEEE).",
+         "Trusted: Coq kernel, extraction, driver (hardware doubles, shortest float printing by round-trip search), harness. Function values (compared and rendered by address) and times with a monotonic reading or a non-UTC location are outside the model (host times in other locations are checked on the implementation only: known finding); NaN is outside the property's premise (not self-equal by IEEE).",
          "DESIGN.md §5 C18"),
  "C03": ("Coq proof relating the bytecode compiler + VM model to the reference evaluator; differential correspondence of all four back ends (values, failure classes, host-call traces) and of the emitted bytes",
          "coq/Model/Eval.v is the reference semantics and the model of the closure compiler and the AST interpreter; coq/Model/VM.v transcribes vm/compiler.go and both dispatch loops at byte level. Theorems in coq/Props/C03.v relate them. Every run compares, per generated program and back end, the outcome class, the canonical value and the ordered host-call trace of the implementation with the model, and applies the property's predicate (all back ends agree or the VM refused for capacity) directly.",
@@ -66,7 +66,7 @@ CLAIMED = {
          "Trusted: Coq kernel, extraction, driver, harness, the -tags verif hook exposing a record's entries.",
          "DESIGN.md §5 C19"),
  "C12": ("Coq proof over an API model whose recover placement is read from the source; differential correspondence of the whole pipeline on arbitrary strings; per-input time budget",
-         "Theorems in coq/Props/C12.v: with the recover placement regenerated from facade.go / conv (table lemma), Compile, the Callable and Eval return a value or an error, never an escaped panic; the front end never runs out of the model's fuel; tokens are bounded by the input length. Every run feeds random runes, lexical-fragment strings, token mutations of valid programs, bracket / operator nests and hostile host values to Eval, Compile, the Callable and Debug (no panic may cross, budget 400 ms growing quadratically beyond 200 runes) and compares Compile + invoke with the API model on every string.",
+         "Theorems in coq/Props/C12.v: with the recover placement regenerated from facade.go / conv (table lemma), Compile, the Callable and Eval return a value or an error, never an escaped panic; the front end never runs out of the model's fuel; tokens are bounded by the input length. Every run feeds random runes, lexical-fragment strings, token mutations of valid programs, bracket / operator / method-chain nests (first in a child process with a time limit) and hostile host values (cyclic in several ways, first in a child process) to Eval, Compile, the Callable and Debug (no panic may cross, budget 400 ms growing quadratically beyond 200 runes) and compares Compile + invoke with the API model on every string.",
          "PARTIAL: wall-clock promptness and Go stack exhaustion are run-time behaviour the model cannot exhibit (watched by the harness budget only). Trusted: Coq kernel, extraction, driver, harness, translator's recover-site scan.",
          "DESIGN.md §5 C12"),
  "C13": ("Coq proof over a history model (engines, environment objects, compiled expressions); histories, repetition, stdout capture and host-value comparison on the implementation",
@@ -74,7 +74,7 @@ CLAIMED = {
          "PARTIAL: non-modification of host values and absence of addresses in renderings hold by construction in a pure model; they are checked on the implementation only (supporting evidence). Trusted: Coq kernel, extraction, driver, harness.",
          "DESIGN.md §5 C13"),
  "C14": ("Coq proof of the shared-state protocol for every schedule + closed-world inventory regenerated from the source; Go race detector under a stress harness as the search for a failing schedule",
-         "Theorems in coq/Props/C14.v: the inventory of package-level mutable state written outside init equals the modelled set (table lemma over a source scan); no two public operations have conflicting unsynchronised accesses; under every schedule the atomic type-variable counter hands out distinct numbers (the pre-repair plain counter is refuted by a 4-step schedule); a compilation's inferred type does not depend on where the counter stands. Every run builds harness/cmd/racer with -race and runs goroutines that compile on separate engines, on one initialised engine, and invoke one compiled expression with distinct environment objects, comparing each outcome with the sequential one.",
+         "Theorems in coq/Props/C14.v: the inventory of package-level mutable state written outside init equals the modelled set (table lemma over a source scan); no two public operations have conflicting unsynchronised accesses; under every schedule the atomic type-variable counter hands out distinct numbers (the pre-repair plain counter is refuted by a 4-step schedule); a compilation's inferred type does not depend on where the counter stands. Every run builds harness/cmd/racer with -race and runs goroutines that compile on separate engines, on one initialised engine, and invoke shared compiled expressions of all three back ends (user lazy functions with nested thunks, conversions of composites to text, set operations) on distinct and on shared environment objects, comparing each outcome with the sequential one.",
          "PARTIAL: the Go memory model, the scheduler and races in code outside the inventory are run-time behaviour the model cannot exhibit; the race detector only sees the schedules that happen. Trusted: Coq kernel, harness, translator's shared-state scan, Go race detector.",
          "DESIGN.md §5 C14"),
  "C15": ("Coq proof over a model of conv/{val,type,typeenv,valenv}.go with reflection described by (gty, gv); differential correspondence on Go values built by reflection",
